@@ -363,6 +363,13 @@ class Point2Index(Contract):
             inside = z3.And(pm <= R(p), R(p) <= px)
             out.append((f'index[{j}]: cell contains the point (lower face inclusive, last cell upper-inclusive)',
                         z3.Implies(inside, z3.And(kr * e <= x, z3.Or(x < (kr + 1) * e, z3.And(I(kk) == I(k) - 1, x <= (kr + 1) * e))))))
+            cell = getattr(st.self, 'ghost', {}).get('cell') if hasattr(st.self, 'ghost') else None
+            if cell:
+                # the same containment in terms of the cell size (states parametrised by (pmin, cell, n): edges == n*cell);
+                # redundant, but linear in the index - callers reason with this form
+                cj, xr = R(cell[j]), R(p) - pm
+                out.append((f'index[{j}]: index*cell <= p - pmin < (index+1)*cell (last cell upper-inclusive)',
+                            z3.Implies(inside, z3.And(kr * cj <= xr, z3.Or(xr < (kr + 1) * cj, z3.And(I(kk) == I(k) - 1, xr <= (kr + 1) * cj))))))
             out.append((f'index[{j}]: tolerance band below pmin -> first cell', z3.Implies(R(p) < pm, I(kk) == 0)))
             out.append((f'index[{j}]: tolerance band above pmax -> last cell', z3.Implies(R(p) > px, I(kk) == I(k) - 1)))
         return out
@@ -507,6 +514,15 @@ class MeshInit(Contract):
             if len(st.cell) != d:
                 return [('ValueError', True)]
             out.append(('ValueError', disj([R(c) <= 0 for c in st.cell])))
+            if getattr(E, 'call_depth', 0) > 0 and s.whole_cells(E, st):
+                # use site with edges == m*cell for integer terms m >= 1 (decided): the first cell lies inside the region
+                # (c <= m*c) and the remainder is exactly 0 - neither of the two remaining conditions can hold, whatever the
+                # tolerance; they are not even built (they are the slow ones: tolerance formulas and floor terms)
+                if s._bc_bad(st):
+                    out.append(('ValueError', True))
+                if st.subregions:
+                    out += s.subregion_raises(E, st)
+                return out
             reg = st.region
             pm = reg.attrs['_pmin'].elems
             corner = [R(a) + R(c) for a, c in zip(pm, st.cell)]
@@ -533,6 +549,16 @@ class MeshInit(Contract):
             out += s.subregion_raises(E, st)
         return out
 
+    def whole_cells(s, E, st):
+        """edges_j / cell_j cancels syntactically to an integer term m_j that is provably >= 1, and cell_j > 0, on every axis"""
+        from pyvc.core import cancel, int_of
+        for e, c in zip(s._edges(st), st.cell):
+            q_ = cancel(toreal(e), toreal(R(c)))
+            m = int_of(z3.simplify(q_)) if q_ is not None else None
+            if m is None or E.decide(m >= 1) is not True or E.decide(R(c) > 0) is not True:
+                return False
+        return True
+
     def sub_lattice(s, E, st):
         """use sites with subregions: the lattice coordinates (a_j, b_j) of every given subregion relative to the NEW mesh,
         read off syntactically ((corner - pmin)/cell must cancel to an integer-valued term); None if that fails"""
@@ -540,6 +566,14 @@ class MeshInit(Contract):
         reg = st.region.attrs
         if st.cell is not None:
             cells = [R(c) for c in st.cell]
+        elif st.n is not None:
+            # mesh requested by cell counts: the cell size is edges/n where that quotient cancels syntactically
+            cells = []
+            for e, k in zip(s._edges(st), st.n):
+                q_ = cancel(toreal(e), toreal(R(k)))
+                if q_ is None:
+                    return None
+                cells.append(z3.simplify(q_))
         else:
             return None
         out = {}
@@ -575,8 +609,11 @@ class MeshInit(Contract):
         conds = []
         for name, (a, b) in lat.items():
             for j, (aj, bj) in enumerate(zip(a, b)):
-                q_ = cancel(toreal(edges[j]), toreal(R(st.cell[j])))
-                nj = int_of(z3.simplify(q_)) if q_ is not None else None
+                if st.cell is None:
+                    nj = I(st.n[j])
+                else:
+                    q_ = cancel(toreal(edges[j]), toreal(R(st.cell[j])))
+                    nj = int_of(z3.simplify(q_)) if q_ is not None else None
                 if nj is None:
                     raise Unsupported('Mesh.__init__ with subregions: cell count of the new mesh not known syntactically')
                 conds.append(z3.Not(z3.And(aj >= 0, aj < bj, bj <= nj)))
